@@ -1,5 +1,5 @@
 (* Proofs about the model of locate's tail (property C08). *)
-From Coq Require Import QArith Qabs List Bool Arith Lia Permutation Sorting.Sorted NArith.
+From Coq Require Import QArith Qabs List Bool Arith Lia Lqa Permutation Sorting.Sorted NArith.
 From TP Require Import Model.LocateTail Model.LocateTailSpec Model.LocateTailCheck.
 Import ListNotations.
 Open Scope Q_scope.
@@ -365,6 +365,28 @@ Proof.
   rewrite IH. unfold Qdiv. ring.
 Qed.
 
+Lemma d2r_nonneg : forall sep p q, 0 <= d2r sep p q.
+Proof.
+  induction sep as [|s sep IH]; intros p q; cbn [d2r]; [apply Qle_refl|].
+  destruct p as [|a p]; [apply Qle_refl|]. destruct q as [|b q]; [apply Qle_refl|].
+  cbv zeta. specialize (IH p q). generalize dependent (d2r sep p q).
+  generalize (Qred (a / s - b / s)). intros r t Ht. nra.
+Qed.
+
+(* the early exit of [close] does not change the predicate *)
+Lemma close_spec : forall sep p q, close sep p q = Qltb (d2r sep p q) 1.
+Proof.
+  intros sep p q. unfold close.
+  destruct sep as [|s sep]; [reflexivity|]. destruct p as [|a p]; [reflexivity|].
+  destruct q as [|b q]; [reflexivity|].
+  destruct (Qle_bool 1 (Qabs (a / s - b / s))) eqn:E; [|reflexivity].
+  symmetry. apply Qltb_ge. apply Qle_bool_iff in E. cbn [d2r]. cbv zeta.
+  pose proof (d2r_nonneg sep p q) as Hn. generalize dependent (d2r sep p q).
+  generalize (Qred_correct (a / s - b / s)). generalize (Qred (a / s - b / s)).
+  generalize dependent (a / s - b / s). intros d E r Er t Ht.
+  revert E. apply Qabs_case; intros; nra.
+Qed.
+
 Definition far (sep : list Q) (a b : row) : Prop := ~ dist2_sep sep (r_pos a) (r_pos b) < 1.
 
 Lemma far_sym : forall sep a b, far sep a b -> far sep b a.
@@ -372,13 +394,13 @@ Proof. unfold far. intros sep a b H. now rewrite dist2_sep_sym. Qed.
 
 Lemma close_false_far : forall sep a b, close sep (r_pos a) (r_pos b) = false -> far sep a b.
 Proof.
-  unfold close, far. intros sep a b H. apply Qltb_ge in H.
+  unfold far. intros sep a b H. rewrite close_spec in H. apply Qltb_ge in H.
   rewrite d2r_dist2_sep in H. now apply Qle_not_lt.
 Qed.
 
 Lemma far_close_false : forall sep a b, far sep a b -> close sep (r_pos a) (r_pos b) = false.
 Proof.
-  unfold close, far. intros sep a b H. apply Qltb_ge.
+  unfold far. intros sep a b H. rewrite close_spec. apply Qltb_ge.
   rewrite d2r_dist2_sep. now apply Qnot_lt_le.
 Qed.
 
